@@ -67,7 +67,24 @@ def uniform_values(a, b):
 _frozen = False
 
 
+def _roomy(f):
+    return f()
+
+
+# CPython 3.12 keeps interpreter frames in 16 KiB "data stack chunks" that are mmap'ed when the
+# recursion crosses a chunk boundary and munmap'ed as soon as it returns below it.  Scenic's
+# recursive-descent parser crosses such boundaries ~90 times per compiled program, and page faults
+# are very expensive on this box (60 compilations: 9000 faults, 7-13 s; inside _roomy: 16 faults,
+# 1.3 s).  A frame that claims a large evaluation stack makes CPython allocate ONE big chunk in
+# which all deeper frames live.  (Nothing is executed differently; only where frames are stored.)
+_roomy.__code__ = _roomy.__code__.replace(co_stacksize=400000)
+
+
 def real_run(item):
+    return _roomy(lambda: _real_run(item))
+
+
+def _real_run(item):
     """Worker: compile the program with the real Scenic, enumerate every RNG branch of
     Scenario.generate, return the set of observed value vectors and the support intervals."""
     global _frozen
